@@ -150,6 +150,13 @@ def main():
         if bad:
             print('CHECKER-FAILURE: THIR/MIR call-site disagreement: %s' % '; '.join(bad[:5]))
             rc = max(rc, 2)
+        # ---- engine self-test (term algebra identities / non-identities)
+        from . import engine_selftest
+        ef = engine_selftest.run()
+        cov['engine_selftest'] = {'failures': ef}
+        if ef:
+            rc = max(rc, 2)
+            print('CHECKER-FAILURE: term algebra self-test: ' + '; '.join(ef[:3]))
         # ---- (b) self-test matrix
         patches = [(p, 'mutant') for p in sorted(glob.glob(os.path.join(V, 'selftest', 'mutants', pid + '_*.diff')))]
         patches += [(p, 'seeded') for p in sorted(glob.glob(os.path.join(V, 'seeded', pid + '_*', 'patch.diff')))]
